@@ -3,6 +3,7 @@
 package main
 
 import (
+	"encoding/json"
 	"fmt"
 	"go/ast"
 	"go/parser"
@@ -478,6 +479,38 @@ func suiteWalk(c *Ctx) error {
 				c.Violate("C16", "C16/non-strict-run-fails", fmt.Sprintf("non-strict run on %s fails: %v", target, errLoose), rp)
 			}
 			c.Res.Evaluations++
+		}
+		// `sfw scan` on the same tree: the JSON report must say which collected files it could not analyse
+		{
+			dbp := filepath.Join(c.Work, fmt.Sprintf("cov%d-sigs.json", mi))
+			os.WriteFile(dbp, []byte(`{"version":"1","signatures":[]}`), 0o644)
+			old := os.Stdout
+			sinkPath := filepath.Join(c.Work, "scan.out")
+			sink, _ := os.Create(sinkPath)
+			os.Stdout = sink
+			errScan := cli.RunScanLogic(fsys, cli.RealPackageLoader{}, root, models.ScanOptions{DBPath: dbp, Threshold: 0.75})
+			os.Stdout = old
+			sink.Close()
+			raw, _ := os.ReadFile(sinkPath)
+			var so models.ScanOutput
+			c.Res.Evaluations++
+			if errScan != nil {
+				c.Skip("scan_failed:" + trunc(errScan.Error(), 60))
+			} else if jerr := json.Unmarshal(raw, &so); jerr != nil {
+				c.Violate("C16", "C16/scan-output-not-json", jerr.Error(), map[string]interface{}{"stdout": trunc(string(raw), 2000)})
+			} else {
+				var silent []string
+				for rel, why := range wantErr {
+					if !strings.Contains(so.Error, filepath.Base(rel)) {
+						silent = append(silent, rel+" ("+why+")")
+					}
+				}
+				sort.Strings(silent)
+				if len(silent) > 0 {
+					c.Violate("C16", "C16/scan-drops-unanalysable-file-silently", fmt.Sprintf("`sfw scan` exits 0 and its JSON names no error for %d collected files it did not analyse: %v (error field: %q)", len(silent), silent, trunc(so.Error, 200)),
+						map[string]interface{}{"module_root": root, "scan_output": trunc(string(raw), 3000), "unanalysable_files": wantErr})
+				}
+			}
 		}
 		if mi == 0 {
 			c.Sample(map[string]interface{}{"files_collected": len(files), "unanalysable": wantErr})
